@@ -166,17 +166,19 @@ def key_tables(ctx) -> Tuple[Dict[int, int], Dict[int, int]]:
     """{bits: minor} tables of ProtocolVersion.from_public_key for RSA and ECC."""
     fn = ctx.own(DC, "ProtocolVersion", "from_public_key")
     out: Dict[str, Dict[int, int]] = {}
-    for iff in [n for n in A.body_of(fn.node) if isinstance(n, ast.If)]:
-        t = norm(iff.test)
-        kind = "rsa" if "PublicKeyRsa" in t else "ecc" if "PublicKeyEcc" in t else None
-        if not kind:
+    gp = A.gpaths(fn.node)
+    for kind, cname in (("rsa", "PublicKeyRsa"), ("ecc", "PublicKeyEcc")):
+        # the returning paths on which the key is of this kind, whatever the branch layout
+        ps = [q for q in gp if q.end == "return" and q.assumes(f"isinstance(public_key, {cname})", True)]
+        if not ps:
             continue
-        for s in iff.body:
+        body = ps[0].stmts
+        for s in body:
             if isinstance(s, ast.Assign) and isinstance(s.value, ast.Subscript) and norm(s.value.slice) == "public_key.key_size":
                 d = ctx.prog.fold(s.value.value, fn.module)
                 if isinstance(d, dict):
                     out[kind] = d
-        majors = [norm(A.arg_of(c, 0, "major")) for c in A.calls_in(ast.Module(body=iff.body, type_ignores=[]), "from_version")]
+        majors = [norm(A.arg_of(c, 0, "major")) for c in A.calls_in(ast.Module(body=body, type_ignores=[]), "from_version")]
         if majors != [{"rsa": "1", "ecc": "2"}[kind]]:
             raise AnalysisError(f"C15: from_public_key {kind} branch does not build major {majors}")
     if set(out) != {"rsa", "ecc"}:
@@ -610,8 +612,10 @@ def rule_rot_hash(ctx) -> None:
     ex = ctx.own(DC, "RotMetaEcc", "export_crtk_table")
     tx = norm(ex.node)
     concat = "ctrk_table += rot_item" in tx or "b''.join(self.rot_items)" in tx or "join(rot_item for rot_item in self.rot_items)" in tx
-    ex_ok = concat and "len(self.rot_items) > 1" in tx
-    chk.decide(not probs and ex_ok and "flags = RotMetaFlags.parse(data[:4])" in norm(pa.node) and "crt_table = data[4:]" in norm(pa.node) and "if flags.cnt_root_cert > 1:" in norm(pa.node),
+    # the table is written only for more than one key, and read back under the same condition (whatever the branch layout)
+    ex_ok = concat and A.always_under(ex.node, lambda t, s: "rot_item" in t and ("+=" in t or "join" in t), "len(self.rot_items) > 1")
+    rd_ok = A.always_under(pa.node, lambda t, s: "crt_table[" in t, "flags.cnt_root_cert > 1")
+    chk.decide(not probs and ex_ok and rd_ok and "flags = RotMetaFlags.parse(data[:4])" in norm(pa.node) and "crt_table = data[4:]" in norm(pa.node),
                "C15.rot-hash", pa.qual, "table items are read at the digest size they were written with (after the 4-byte flags), only when the count is > 1", "; ".join(probs), "", A.loc(DC, pa.node))
     e2 = ctx.own(DC, "RotMetaEcc", "export")
     chk.decide(norm(A.returns_in(e2.node)[-1].value) == "self.flags.export() + self.export_crtk_table()", "C15.rot-hash", e2.qual, "flags then table", norm(e2.node)[:120], "", A.loc(DC, e2.node))
